@@ -26,6 +26,11 @@ var verifPrefixes = []string{
 	"a COPY 1 ",      // 16
 	"a SEARCH BEFORE ", // 17
 	"a APPEND x (\\Seen) ", // 18
+	"a LOGIN {",      // 19: literal size field and what follows
+	"a LOGIN \"",     // 20: inside a quoted string
+	"a LIST \"\" ",   // 21: list-mailbox argument
+	"a FETCH 1 BODY[HEADER.FIELDS (", // 22
+	"a STATUS x (",   // 23
 }
 
 // VerifC11Parse: an arbitrary byte string (after a fixed prefix that positions the parser), followed by
